@@ -93,7 +93,7 @@ def run(chk):
     #    explores directed continuations (only the would-be winner's election timer fires); the verdict is a
     #    Raft invariant violated in a state of such a real-code continuation.
     variables = T.extract_vars(text)
-    wplans = [(3, 2, 1, 2, 1200)] if quick else [(3, 2, 1, 10, 2500), (5, 2, 2, 4, 1500), (2, 1, 0, 4, 600)]
+    wplans = [(3, 2, 1, 2, 1200)] if quick else [(3, 2, 1, 10, 2500), (5, 2, 2, 4, 1500), (3, 3, 1, 6, 1500)]
     if "4" not in parts:
         wplans = []
     wstats = []
